@@ -111,6 +111,12 @@ def _pattern(p, subj):
             binds.append(here(ast.Assign(targets=[ast.Name(id=star.name, ctx=ast.Store())],
                                          value=ast.Call(func=ast.Name(id="list", ctx=ast.Load()), args=[ast.Subscript(value=subj, slice=sl, ctx=ast.Load())], keywords=[]))))
         return here(ast.BoolOp(op=ast.And(), values=tests)), binds
+    if isinstance(p, ast.MatchClass) and len(p.patterns) == 1 and not p.kwd_attrs and isinstance(p.cls, ast.Name) and \
+            p.cls.id in ("int", "str", "bytes", "bytearray", "float", "bool", "list", "tuple", "dict", "set", "frozenset"):
+        # int(z): for these builtin types the one positional sub-pattern is matched against the subject itself
+        t, b = _pattern(p.patterns[0], subj)
+        tests = [here(ast.Call(func=ast.Name(id="isinstance", ctx=ast.Load()), args=[subj, p.cls], keywords=[]))] + ([t] if t is not None else [])
+        return (tests[0] if len(tests) == 1 else here(ast.BoolOp(op=ast.And(), values=tests))), b
     if isinstance(p, ast.MatchClass) and not p.patterns:
         tests = [here(ast.Call(func=ast.Name(id="isinstance", ctx=ast.Load()), args=[subj, p.cls], keywords=[]))]
         binds = []
@@ -140,8 +146,16 @@ class _MatchLowering(ast.NodeTransformer):
             tmp = "__match_subject_%d" % _MatchLowering.n
             pre = [ast.copy_location(ast.Assign(targets=[ast.Name(id=tmp, ctx=ast.Store())], value=node.subject), node)]
             subj = ast.Name(id=tmp, ctx=ast.Load())
+        # `case A | B:` whose alternatives bind names is the two cases `case A:` / `case B:` with the same guard and body
+        expanded = []
+        for c in node.cases:
+            if isinstance(c.pattern, ast.MatchOr) and any(isinstance(q, (ast.MatchAs, ast.MatchStar)) and getattr(q, "name", None) for p_ in c.pattern.patterns for q in ast.walk(p_)):
+                for alt in c.pattern.patterns:
+                    expanded.append(ast.copy_location(ast.match_case(pattern=alt, guard=copy.deepcopy(c.guard), body=copy.deepcopy(c.body)), c.pattern))
+            else:
+                expanded.append(c)
         try:
-            cases = [(c,) + _pattern(c.pattern, subj) for c in node.cases]
+            cases = [(c,) + _pattern(c.pattern, subj) for c in expanded]
         except _Unsupported:
             return node
 
